@@ -16,6 +16,9 @@ void harness(void)
     unsigned char buf[VF_N + 1];
     unsigned n = nondet_uint();
     VF_ASSUME(n >= 1 && n <= VF_N);
+#ifdef VF_EXACT_N
+    n = VF_N;                  /* one query per length */
+#endif
 #ifdef VF_TAIL_ALIGN     /* terminator = last byte of the object */
     unsigned char *s = buf + (VF_N - n);
 #else
@@ -28,8 +31,19 @@ void harness(void)
     unsigned d0 = nondet_uint(), d1 = nondet_uint(), d2 = nondet_uint(), cut = nondet_uint();
     VF_ASSUME(cut <= VF_PREFIXLEN);          /* the prefix occupies [0, cut) */
 #endif
+#ifdef VF_SHAPE_P1
+    /* concrete-shape family: leading labels of CONCRETE lengths VF_SHAPE_P1 (and VF_SHAPE_P2, 0 = none) made of one
+     * symbolic letter, then an arbitrary suffix: n = prefix + suffix length */
+    unsigned char sfill = nondet_uchar();
+    VF_ASSUME((sfill >= 'a' && sfill <= 'z') || (sfill >= 'A' && sfill <= 'Z') || (sfill >= '0' && sfill <= '9'));
+#define SHAPE_PRE (VF_SHAPE_P1 + 1 + (VF_SHAPE_P2 ? VF_SHAPE_P2 + 1 : 0))
+    VF_ASSUME(n >= SHAPE_PRE);
+#endif
     for (unsigned i = 0; i < VF_N; i++) {
         unsigned char c = nondet_uchar();
+#ifdef VF_SHAPE_P1
+        if (i < SHAPE_PRE) c = (i == VF_SHAPE_P1 || (VF_SHAPE_P2 && i == VF_SHAPE_P1 + 1 + VF_SHAPE_P2)) ? '.' : sfill;
+#endif
 #ifdef VF_PREFIXLEN
 #ifdef VF_DOTS          /* fewer symbolic dot positions */
         if (i < cut) c = ((VF_DOTS >= 1 && i == d0) || (VF_DOTS >= 2 && i == d1) || (VF_DOTS >= 3 && i == d2)) ? '.' : fill;
@@ -40,11 +54,20 @@ void harness(void)
         if (i < n) { VF_ASSUME(c != 0); s[i] = c; }
     }
     s[n] = 0;
+#ifdef VF_TAILLAB
+    /* the last VF_TAILLAB + 1 bytes are a dot and a label of that CONCRETE length made of one symbolic letter */
+    {
+        unsigned char tf = nondet_uchar();
+        VF_ASSUME(tf != 0 && tf != '.');
+        VF_ASSUME(n == VF_N);
+        for (unsigned i = 0; i < VF_N; i++)
+            if (i >= VF_N - VF_TAILLAB - 1) s[i] = (i == VF_N - VF_TAILLAB - 1) ? '.' : tf;
+    }
+#endif
 #ifdef VF_MEMSAFE
     /* C06: ANY NUL-terminated input through the public entry point: only the memory-safety / UB
      * obligations CBMC generates are checked here, no functional claim */
     (void) is_special_domain((const char *) s, (const char *) s + n);
-    VF_COVER(n >= 66, "long-input");
     VF_END();
     return;
 #endif
